@@ -11,6 +11,7 @@ from __future__ import annotations
 import argparse
 import functools
 import json
+import posixpath
 import re
 import zlib
 from collections.abc import Iterator
@@ -77,13 +78,18 @@ def from_sphinx(inv: SphinxInventoryType) -> InventoryType:
 def to_sphinx(inv: InventoryType) -> SphinxInventoryType:
     """Convert to a Sphinx compliant format."""
     objs: SphinxInventoryType = {}
+    base_url = inv["base_url"]
     for domain_name, obj_types in inv["objects"].items():
         for obj_type, refs in obj_types.items():
             for refname, refdata in refs.items():
+                loc = refdata["loc"]
+                if base_url:
+                    # in the Sphinx format the location includes the base url
+                    loc = posixpath.join(base_url, loc)
                 objs.setdefault(f"{domain_name}:{obj_type}", {})[refname] = (
                     inv["name"],
                     inv["version"],
-                    refdata["loc"],
+                    loc,
                     refdata["text"] or "-",
                 )
     return objs
